@@ -613,7 +613,46 @@ func (w *walker) structNode(s reflect.Value, sch *yang.Entry, base string) {
 				}
 				ents = append(ents, ent{ks, ev})
 			}
-			sort.Slice(ents, func(a, b int) bool { return ents[a].ks < ents[b].ks })
+			// Lists keyed by wrapper unions are keyed by pointer identity, so two entries can
+			// carry the same key value. Keep the walk deterministic anyway: order such twins by
+			// their content and tell them apart with a suffix.
+			dup := false
+			for a := range ents {
+				for b := a + 1; b < len(ents); b++ {
+					if ents[a].ks == ents[b].ks {
+						dup = true
+					}
+				}
+			}
+			content := map[int]string{}
+			if dup {
+				for a := range ents {
+					content[a] = Walk(ents[a].v.Interface(), csch, "").Fingerprint()
+				}
+				idx := make([]int, len(ents))
+				for a := range idx {
+					idx[a] = a
+				}
+				sort.SliceStable(idx, func(a, b int) bool {
+					if ents[idx[a]].ks != ents[idx[b]].ks {
+						return ents[idx[a]].ks < ents[idx[b]].ks
+					}
+					return content[idx[a]] < content[idx[b]]
+				})
+				sorted := make([]ent, len(ents))
+				for a, i := range idx {
+					sorted[a] = ents[i]
+				}
+				ents = sorted
+				for a := 1; a < len(ents); a++ {
+					if ents[a].ks == ents[a-1].ks || strings.HasPrefix(ents[a-1].ks, ents[a].ks+"~") {
+						w.problem("%s%s: two entries with the same key value", p, ents[a].ks)
+						ents[a].ks = fmt.Sprintf("%s~%d", ents[a].ks, a)
+					}
+				}
+			} else {
+				sort.Slice(ents, func(a, b int) bool { return ents[a].ks < ents[b].ks })
+			}
 			for _, e := range ents {
 				keys = append(keys, e.ks)
 				ep := p + e.ks
